@@ -221,3 +221,18 @@ Definition fraction_f64_in_unit_statement : Prop :=
     i <> j ->
     let fr := ((qq - nofnat i / len_1) / (nofnat j / len_1 - nofnat i / len_1))%float in
     ffin fr = true /\ 0 <= f2r fr <= 1.
+
+(* (5) the overshoot is reachable through vquantile itself: 50 valid elements, q = fl(1/49): fl(49 q) = 0.9999999999999999,
+   floor 0, ceil 1, fraction = q / q = 1; the two smallest elements are -1 and 2^-53 + 2^-105, the other 48 are 1.
+   The linear quantile returned, 2^-52, is ABOVE the upper neighbour s[1] (by 2^-53 - 2^-105: far inside the 1e-9
+   tolerance of DESIGN 5.1, but outside the interval [s[0], s[1]] that the exact-real statement guarantees) *)
+Definition overshoot_series : list float :=
+  (-1)%float :: 0x1.0000000000001p-53%float :: repeat 1%float 48.
+Definition overshoot_q : float := (1 / 49)%float.
+
+Lemma vquantile_f64_overshoot :
+  nleb (A := float) nzero overshoot_q && nleb overshoot_q none = true /\
+  vquantile (NF := NumFloorF64) (DT := IsNoneF64) overshoot_q Linear overshoot_series = Ok (Some 0x1p-52%float) /\
+  vquantile (NF := NumFloorF64) (DT := IsNoneF64) overshoot_q Higher overshoot_series = Ok (Some 0x1.0000000000001p-53%float) /\
+  CF.ltb 0x1.0000000000001p-53%float 0x1p-52%float = true.
+Proof. vm_compute. repeat split. Qed.
